@@ -1,8 +1,79 @@
-"""C05: random histories on the real container validated by TLC against SGAbs.tla (SGTrace.tla)."""
+"""C05: random histories on the real Csr / adj::List validated by TLC against SGAbs.tla (SGTrace.tla), plus the
+implementation-shaped model of the Csr arrays (CsrImpl.tla): model-checked with a scaled-down binary-search cutoff,
+simulated with the real cutoff, and every exported behaviour replayed on the real Csr."""
 from props.sgcommon import *
 
+
+def csr_stage(run, thorough, seed):
+    d = os.path.join(SPEC, "simple")
+    base = open(os.path.join(d, "MCCsrImpl.cfg")).read()
+    scripts = []
+    tmp = os.path.join(d, "out_MCCsrImpl.cfg")
+    for directed in (True, False):
+        n, ops = (3, 13) if directed else ((4, 15) if thorough else (3, 10))
+        q = base.replace("MaxN = 3", "MaxN = %d" % n).replace("MaxOps = 9", "MaxOps = %d" % ops).replace("Directed = TRUE", "Directed = %s" % ("TRUE" if directed else "FALSE"))
+        open(tmp, "w").write(q)
+        run.add_mc("CsrImpl %s N=%d cutoff=2" % ("directed" if directed else "undirected", n), tlc("simple/CsrImpl", "out_MCCsrImpl.cfg", workers=8, timeout=1800, tag="c05csr"))
+        open(tmp, "w").write(q.replace("INVARIANT Inv", "INVARIANT Inv Export").replace("PROPERTY Verdict\n", ""))
+        r = tlc("simple/CsrImpl", "out_MCCsrImpl.cfg", workers=1, timeout=1800, tag="c05csrx")
+        run.add_mc("CsrImpl export", r)
+        scripts += [parse_printed_json(l, "CSR")[1] for l in r.printed("CSR")]
+    if thorough:
+        q = base.replace("MaxN = 3", "MaxN = 4").replace("MaxOps = 9", "MaxOps = 12").replace("PROPERTY Verdict\n", "")
+        open(tmp, "w").write(q)
+        run.add_mc("CsrImpl directed N=4 (12 calls)", tlc("simple/CsrImpl", "out_MCCsrImpl.cfg", workers=10, timeout=3000, tag="c05csr4"))
+    os.remove(tmp)
+    nmc = len(scripts)
+    # simulation with the real cutoff (32): hub rows grow through it; one exported behaviour per simulated run
+    sim = open(os.path.join(d, "SimCsrImpl.cfg")).read()
+    for directed in (True, False):
+        open(tmp, "w").write(sim.replace("Directed = TRUE", "Directed = %s" % ("TRUE" if directed else "FALSE")))
+        r = tlc("simple/CsrImpl", "out_MCCsrImpl.cfg", workers=1, timeout=1800, tag="c05sim",
+                extra=["-simulate", "num=%d" % (60 if thorough else 8), "-depth", "261", "-seed", str(seed + 11)])
+        if r.errors:
+            run.add_mc("CsrImpl simulation", r)
+        scripts += [parse_printed_json(l, "CSR")[1] for l in r.printed("CSR")]
+    os.remove(tmp)
+    if len(scripts) == nmc:
+        raise ToolError("CsrImpl simulation exported nothing")
+    inp = os.path.join(OUT, "traces", "C05-csr-in.ndjson")
+    outp = os.path.join(OUT, "traces", "C05-csr-out.ndjson")
+    write_ndjson(inp, scripts)
+    vh(["csr-replay", "--in", inp, "--out", outp])
+    res = read_ndjson(outp)
+    if len(res) != len(scripts):
+        raise ToolError("csr-replay answered %d of %d" % (len(res), len(scripts)))
+    bad = [x for x in res if not x["ok"]]
+    run.traces += len(res) - len(bad)
+    run.extra["csrimpl_behaviours_replayed"] = {"exhaustive_states": nmc, "simulated_cutoff32": len(scripts) - nmc}
+    log("[csr] %d CsrImpl behaviours (%d simulated with cutoff 32) replayed on the real Csr, %d differ" % (len(res), len(scripts) - nmc, len(bad)))
+    for x in bad[:5]:
+        sc = scripts[x["i"]]
+        run.violation({"kind": "csr_impl", "directed": sc["directed"], "calls": len(sc["hist"]), "first_diff": (x["diffs"] or ["?"])[0][:80]},
+                      [dict(sc, diffs=x["diffs"])], header={"exec": "csr-replay"})
+    for f in (inp, outp, outp + ".cur"):
+        if os.path.exists(f):
+            os.remove(f)
+
+
 def run(tier, seed):
-    return run_sg("C05", tier, seed, {"C03": "GraphMap", "C04": "MatrixGraph", "C05": "Csr / adj::List"}["C05"]).finish()
+    r = run_sg("C05", tier, seed, "Csr / adj::List")
+    csr_stage(r, tier == "thorough", seed)
+    r.assumptions.append("CsrImpl.tla: exhaustive for 3 nodes (4 undirected in the thorough tier) with cutoff 2; simulations with 40 nodes and the real cutoff 32; the model's arrays equal neighbors_slice / edges_slice / edge_count of the real Csr after every exported behaviour")
+    return r.finish()
+
 
 def replay(path, seed):
+    evs = read_ndjson(path)
+    if evs and evs[0].get("replay", {}).get("exec") == "csr-replay":
+        run_ = Run("C05", "quick", seed)
+        build_harness()
+        scripts = [e for e in evs if "replay" not in e]
+        inp = os.path.join(OUT, "traces", "C05-csr-rp.ndjson")
+        write_ndjson(inp, scripts)
+        vh(["csr-replay", "--in", inp, "--out", inp + ".out"])
+        for x in read_ndjson(inp + ".out"):
+            if not x["ok"]:
+                run_.violation({"kind": "csr_impl", "first_diff": (x["diffs"] or ["?"])[0][:80]}, [scripts[x["i"]]], header={"exec": "csr-replay"})
+        return 1 if run_.violations else 0
     return replay_sg("C05", path, seed)
